@@ -29,7 +29,8 @@ EXTENDS Integers, FiniteSets, TLC
 
 CONSTANTS N,        \* maxConcurrentReqs
           Q,        \* maxQueueLen
-          NCalls    \* calls of Do (each id used once)
+          NCalls,   \* calls of Do (each id used once)
+          WithObs   \* BOOLEAN: include the QueueLen observer thread
 
 Calls == 1..NCalls
 Max   == N + Q
@@ -100,7 +101,7 @@ Cancel(c) ==
   /\ call' = Set(c, "ctxc", TRUE) /\ UNCHANGED <<cnt, sem, obs>>
 
 (* QueueLen(): int(currentRequests.Load()) - len(t.sem) — two separate reads *)
-ObsReadCnt == obs.pc = "idle" /\ obs' = [pc |-> "cnt", c |-> cnt, ql |-> obs.ql] /\ UNCHANGED <<cnt, sem, call>>
+ObsReadCnt == WithObs /\ obs.pc = "idle" /\ obs' = [pc |-> "cnt", c |-> cnt, ql |-> obs.ql] /\ UNCHANGED <<cnt, sem, call>>
 ObsReadSem == obs.pc = "cnt" /\ obs' = [pc |-> "idle", c |-> 0, ql |-> obs.c - sem] /\ UNCHANGED <<cnt, sem, call>>
 
 Internal(c) == CheckCtx(c) \/ Incr(c) \/ Acquire(c) \/ CancelWait(c) \/ DoerStart(c) \/ Release(c) \/ Decr(c) \/ Return(c)
